@@ -50,8 +50,8 @@ Proof. exact open_tx_pipe_world. Qed.
 Print Assumptions C08_tx_ack_path.
 
 (* ---- The property over HISTORIES ("for any sequence of open_rx_pipe, close_rx_pipe, open_tx_pipe, auto-ack
-   changes and listen toggles").  PipeHist.pop is the alphabet: open_rx_pipe(0, a), close_rx_pipe(0), open_tx_pipe(a),
-   listen = b, auto_ack = b (1..5 address bytes: pop_ok).  PipeHist.ghost is the specification's own bookkeeping,
+   changes and listen toggles").  PipeHist.pop is the alphabet: open_rx_pipe(p, a), close_rx_pipe(p) for every pipe 0..5,
+   open_tx_pipe(a), listen = b, auto_ack = b (1..5 address bytes: pop_ok).  PipeHist.ghost is the specification's own bookkeeping,
    independent of the driver: the complete RX_ADDR_P0 image right after the user's last open_rx_pipe(0, a), None if never
    opened or closed.  PipeHist.post is what C08 demands of one call: entering RX mode puts CE high, PWR_UP|PRIM_RX, pipe 0
    on the ghost address and enabled (closed if the ghost is None), TX_ADDR untouched; open_tx_pipe programs TX_ADDR and,
